@@ -248,7 +248,8 @@ class Interp:
         if isinstance(v, z3.BoolRef):
             return v
         if hasattr(v, "pyvc_truth"):
-            return v.pyvc_truth()
+            t_ = v.pyvc_truth()
+            return t_.t if isinstance(t_, S.SymBool) else t_
         if isinstance(v, (S.SymReal,)):
             raise PyvcUnsupported("truth of symbolic value")
         return bool(v)
@@ -324,7 +325,12 @@ class Interp:
         for op, right_e in zip(e.ops, e.comparators):
             right = self.ev(right_e, st)
             if isinstance(op, (ast.Is, ast.IsNot)):
-                r = (left is right) if isinstance(op, ast.Is) else (left is not right)
+                if right is None and hasattr(left, "pyvc_is_none"):
+                    r = left.pyvc_is_none()
+                    if isinstance(op, ast.IsNot):
+                        r = S.SymBool(z3.Not(r.t)) if isinstance(r, S.SymBool) else (not r)
+                else:
+                    r = (left is right) if isinstance(op, ast.Is) else (left is not right)
             elif isinstance(op, (ast.In, ast.NotIn)):
                 if hasattr(right, "pyvc_contains"):
                     r = right.pyvc_contains(left)
@@ -450,6 +456,12 @@ class Interp:
                 raise PyvcUnsupported("unpacking arity")
             for t, v in zip(target.elts, vals):
                 self.bind(t, v, st)
+        elif isinstance(target, ast.Attribute):
+            obj = self.ev(target.value, st)
+            if hasattr(obj, "pyvc_setattr"):
+                obj.pyvc_setattr(target.attr, value, self, st)
+            else:
+                raise PyvcUnsupported(f"attribute assignment on {type(obj).__name__} (line {target.lineno})")
         elif isinstance(target, ast.Subscript):
             obj = self.ev(target.value, st)
             idx = self.ev(target.slice, st)
@@ -512,6 +524,21 @@ class Interp:
         st.sig = RAISE
         st.val = ast.unparse(s.exc) if s.exc is not None else "re-raise"
         return [st]
+
+    def st_With(self, s, st):
+        """with <expr> as <name>: the context manager model supplies pyvc_enter(interp, st) / pyvc_exit(interp, st, signal)"""
+        if len(s.items) != 1:
+            raise PyvcUnsupported("with: several items")
+        cm = self.ev(s.items[0].context_expr, st)
+        if not hasattr(cm, "pyvc_enter"):
+            raise PyvcUnsupported(f"with: no model for {type(cm).__name__}")
+        v = cm.pyvc_enter(self, st)
+        if s.items[0].optional_vars is not None:
+            self.bind(s.items[0].optional_vars, v, st)
+        ends = self.run_block(s.body, [st])
+        for e_ in ends:
+            cm.pyvc_exit(self, e_, e_.sig)
+        return ends
 
     def st_Import(self, s, st):
         return [st]
@@ -686,7 +713,8 @@ class Interp:
                     e_.sig = NORMAL
                     self.oblige(e_, f"{lname}/path{i}/invariant.preserved", spec.invariant(e_, k + 1), {"line": s.lineno})
                 elif e_.sig == BREAK:
-                    raise PyvcUnsupported("break inside a for loop over a symbolic sequence")
+                    e_.sig = NORMAL          # leaves the loop at iteration k: continues after the loop with what is known here
+                    out.append(e_)
                 else:
                     out.append(e_)
         exit_st.assume(k == length)
